@@ -746,7 +746,10 @@ class Executor:
                     del obj.d[k]
                     self._mutated(obj, 'delitem')
                 elif isinstance(obj, VList) and isinstance(k, int):
-                    del obj.items[k]
+                    try:
+                        del obj.items[k]
+                    except IndexError:
+                        raise PyRaise('IndexError', 'list assignment index out of range')
                     self._mutated(obj, 'delitem')
                 else:
                     raise Unsupported('del subscript')
@@ -2249,8 +2252,14 @@ class Executor:
                 return PyFn(transpose, 'numpy.transpose')
             if name == 'append':
                 def append(arr_, vals, *a, **k):
+                    ax_ = a[0] if len(a) == 1 and not k else (k.get('axis') if not a and set(k) == {'axis'} else 'other')
+                    if ax_ == 0 and isinstance(arr_, VList) and isinstance(vals, (VList, list)) and arr_.items and isinstance(arr_.items[0], VList):
+                        rows = list(vals.items) if isinstance(vals, VList) else list(vals)
+                        if all(isinstance(r_, VList) and len(r_.items) == len(arr_.items[0].items) for r_ in rows):
+                            # numpy docs: with axis=0 the rows of `values` (same trailing shape) are appended to a copy of arr
+                            return VList(list(arr_.items) + [VList(list(r_.items), 'ndarray') for r_ in rows], 'ndarray')
                     if a or k or not isinstance(arr_, VList):
-                        return Tm('call:lib:numpy.append', arr_, vals)
+                        return Tm('call:lib:numpy.append', arr_, vals, *a, *[('kw', k_, v_) for k_, v_ in sorted(k.items())])
                     extra = list(vals.items) if isinstance(vals, VList) else [vals]
                     return VList(list(arr_.items) + extra, 'ndarray')      # a new flattened array (1-D use only)
                 return PyFn(append, 'numpy.append')
